@@ -233,7 +233,7 @@ func main() {
 	nSchemas := o.Count(1200, 40000)
 	inputsPer := 3
 	t0 := time.Now()
-	for i := 0; i < nSchemas && hangs < 6; i++ {
+	for i := 0; i < nSchemas && hangs < 4; i++ {
 		var sd Seed
 		switch {
 		case r.Chance(0.3):
@@ -250,6 +250,16 @@ func main() {
 	sum.Extra["slow_calls_over_watchdog_but_within_grace"] = slowCalls
 
 	t1 := time.Now()
+	if hangs >= 4 {
+		// several calls never returned: each abandoned worker keeps a core busy; report what was
+		// found rather than running into the harness timeout
+		sum.Extra["aborted_after_hangs"] = hangs
+		x.runCorpus(true)
+		cw.Flush()
+		sum.CaseFiles = cw.Files
+		sum.Write(o)
+		return
+	}
 	correspondence(r, sum, cw, o.Count(250, 5000))
 	correspondenceIntLits(r, sum, cw, o.Count(250, 5000))
 	correspondenceReaders(r, sum, cw, o.Count(200, 4000))
